@@ -25,10 +25,32 @@ operand order, the `None` rules of `__eq__` / `__ne__`, `ISNULL` / `ISNOTNULL`, 
 -/
 namespace SqlObjVerif.Expr
 
+/-- numeric literals: a non-negative integer, or the (non-negative) float literal number `i` of the
+    run's literal table.  What double a float literal's TEXT denotes is Python's / the database's
+    business; the harness checks that the text `sqlrepr` emits decodes to exactly the constant and is
+    a REAL literal, and the model treats the literal as an atom. -/
+inductive Lit where
+  | int (n : Nat)
+  | flt (i : Nat)
+deriving DecidableEq, Repr
+
+instance : OfNat Lit n := ⟨.int n⟩
+
+inductive ArOp where
+  | add | sub | mul | div | mod
+deriving DecidableEq, Repr
+
+inductive CmpOp where
+  | lt | le | gt | ge | eq | ne
+deriving DecidableEq, Repr
+
+def CmpOp.flip : CmpOp → CmpOp
+  | .lt => .gt | .le => .ge | .gt => .lt | .ge => .le | .eq => .eq | .ne => .ne
+
 inductive Tok where
   | lp | rp | comma | null | kwIn
   | col (c : Nat)
-  | num (n : Nat)
+  | num (n : Lit)
   | op (o : BinOp)
   | pre (p : PreOp)
   | fn (f : Fn)
@@ -37,7 +59,7 @@ deriving DecidableEq, Repr
 /-- abstract syntax of SQL expression text (what a parser recovers) -/
 inductive T where
   | col (c : Nat)
-  | num (n : Nat)
+  | num (n : Lit)
   | null
   | bin (o : BinOp) (l r : T)
   | un (p : PreOp) (t : T)
@@ -173,15 +195,67 @@ def parse (P : Prec) (ts : List Tok) : Option T :=
   | some (t, []) => some t
   | _ => none
 
-/-! ## SQL semantics of parsed text (SQLite style: booleans are integers, NULL is `none`) -/
+/-! ## SQL semantics of parsed text (SQLite style: booleans are numbers, NULL is `none`)
 
-abbrev Row := Nat → Option Int
+The number domain is a parameter: `Dom` is ANY set of values with an embedding of the integers, a
+value for every float literal, negation, (partial) arithmetic, comparisons and a truth test,
+subject to four laws.  SQLite's dynamically typed INTEGER/REAL values with IEEE arithmetic are such a
+domain (real vs. integer division included); `intDom` is the all-integer instance used for the
+differential run and the examples.  Every theorem holds for every domain. -/
 
-def b2i (b : Bool) : Int := if b then 1 else 0
+structure Dom where
+  V : Type
+  ofInt : Int → V
+  /-- the value of float literal number `i` -/
+  flt : Nat → V
+  neg : V → V
+  /-- `none`: the operation yields NULL (division by zero, NaN) -/
+  ar : ArOp → V → V → Option V
+  cmp : CmpOp → V → V → Bool
+  isTrue : V → Bool
+  cmp_flip : ∀ o x y, cmp o.flip y x = cmp o x y
+  neg_ofNat : ∀ n : Nat, neg (ofInt n) = ofInt (-(n : Int))
+  isTrue_one : isTrue (ofInt 1) = true
+  isTrue_zero : isTrue (ofInt 0) = false
 
-def truth : Option Int → Option Bool
+def intDom : Dom where
+  V := Int
+  ofInt := id
+  flt := fun _ => 0
+  neg := fun a => -a
+  ar := fun o a b => match o with
+    | .add => some (a + b)
+    | .sub => some (a - b)
+    | .mul => some (a * b)
+    | .div => if b = 0 then none else some (a.tdiv b)
+    | .mod => if b = 0 then none else some (a.tmod b)
+  cmp := fun o a b => match o with
+    | .lt => decide (a < b)
+    | .le => decide (a ≤ b)
+    | .gt => decide (a > b)
+    | .ge => decide (a ≥ b)
+    | .eq => a == b
+    | .ne => a != b
+  isTrue := fun a => a != 0
+  cmp_flip := by
+    intro o x y
+    cases o <;> simp [CmpOp.flip, Bool.beq_comm, bne]
+  neg_ofNat := by intro n; rfl
+  isTrue_one := by decide
+  isTrue_zero := by decide
+
+abbrev Row (D : Dom) := Nat → Option D.V
+
+/-- a boolean as a number: 1 / 0 -/
+def b2i (D : Dom) (b : Bool) : D.V := D.ofInt (if b then 1 else 0)
+
+def Lit.val (D : Dom) : Lit → D.V
+  | .int n => D.ofInt n
+  | .flt i => D.flt i
+
+def truth (D : Dom) : Option D.V → Option Bool
   | none => none
-  | some v => some (v != 0)
+  | some v => some (D.isTrue v)
 
 def and3 : Option Bool → Option Bool → Option Bool
   | some false, _ => some false
@@ -199,78 +273,83 @@ def not3 : Option Bool → Option Bool
   | none => none
   | some b => some (!b)
 
-def eq3 : Option Int → Option Int → Option Bool
-  | some a, some b => some (a == b)
+def eq3 (D : Dom) : Option D.V → Option D.V → Option Bool
+  | some a, some b => some (D.cmp .eq a b)
   | _, _ => none
 
 /-- `x IN (y₁, …, yₙ)` as the three-valued disjunction of `x = yᵢ` (empty list: false) -/
-def in3 (x : Option Int) : List (Option Int) → Option Bool
+def in3 (D : Dom) (x : Option D.V) : List (Option D.V) → Option Bool
   | [] => some false
-  | y :: ys => or3 (eq3 x y) (in3 x ys)
+  | y :: ys => or3 (eq3 D x y) (in3 D x ys)
 
-def lift2 (f : Int → Int → Option Int) : Option Int → Option Int → Option Int
+def lift2 {α β : Type} (f : α → α → Option β) : Option α → Option α → Option β
   | some a, some b => f a b
   | _, _ => none
 
-def binSem (o : BinOp) (x y : Option Int) : Option Int :=
+/-- `x IS y` -/
+def isSame (D : Dom) : Option D.V → Option D.V → Bool
+  | none, none => true
+  | some a, some b => D.cmp .eq a b
+  | _, _ => false
+
+def binSem (D : Dom) (o : BinOp) (x y : Option D.V) : Option D.V :=
   match o with
-  | .add => lift2 (fun a b => some (a + b)) x y
-  | .sub => lift2 (fun a b => some (a - b)) x y
-  | .mul => lift2 (fun a b => some (a * b)) x y
-  | .div => lift2 (fun a b => if b = 0 then none else some (a.tdiv b)) x y
-  | .mod => lift2 (fun a b => if b = 0 then none else some (a.tmod b)) x y
-  | .lt => lift2 (fun a b => some (b2i (decide (a < b)))) x y
-  | .le => lift2 (fun a b => some (b2i (decide (a ≤ b)))) x y
-  | .gt => lift2 (fun a b => some (b2i (decide (a > b)))) x y
-  | .ge => lift2 (fun a b => some (b2i (decide (a ≥ b)))) x y
-  | .eq => lift2 (fun a b => some (b2i (a == b))) x y
-  | .ne => lift2 (fun a b => some (b2i (a != b))) x y
-  | .and => (and3 (truth x) (truth y)).map b2i
-  | .or => (or3 (truth x) (truth y)).map b2i
-  | .is => some (b2i (x == y))
-  | .isNot => some (b2i (x != y))
+  | .add => lift2 (D.ar .add) x y
+  | .sub => lift2 (D.ar .sub) x y
+  | .mul => lift2 (D.ar .mul) x y
+  | .div => lift2 (D.ar .div) x y
+  | .mod => lift2 (D.ar .mod) x y
+  | .lt => lift2 (fun a b => some (b2i D (D.cmp .lt a b))) x y
+  | .le => lift2 (fun a b => some (b2i D (D.cmp .le a b))) x y
+  | .gt => lift2 (fun a b => some (b2i D (D.cmp .gt a b))) x y
+  | .ge => lift2 (fun a b => some (b2i D (D.cmp .ge a b))) x y
+  | .eq => lift2 (fun a b => some (b2i D (D.cmp .eq a b))) x y
+  | .ne => lift2 (fun a b => some (b2i D (D.cmp .ne a b))) x y
+  | .and => (and3 (truth D x) (truth D y)).map (b2i D)
+  | .or => (or3 (truth D x) (truth D y)).map (b2i D)
+  | .is => some (b2i D (isSame D x y))
+  | .isNot => some (b2i D (!isSame D x y))
 
-def preSem (p : PreOp) (x : Option Int) : Option Int :=
+def preSem (D : Dom) (p : PreOp) (x : Option D.V) : Option D.V :=
   match p with
-  | .neg => x.map (fun a => -a)
+  | .neg => x.map D.neg
   | .pos => x
-  | .not => (not3 (truth x)).map b2i
+  | .not => (not3 (truth D x)).map (b2i D)
 
-inductive Sem where
-  | v (x : Option Int)
-  | l (xs : List (Option Int))
-deriving DecidableEq, Repr
+inductive Sem (V : Type) where
+  | v (x : Option V)
+  | l (xs : List (Option V))
 
-def ev (r : Row) : T → Sem
+def ev (D : Dom) (r : Row D) : T → Sem D.V
   | .col c => .v (r c)
-  | .num n => .v (some (n : Int))
+  | .num n => .v (some (n.val D))
   | .null => .v none
   | .bin o a b =>
-    match ev r a, ev r b with
-    | .v x, .v y => .v (binSem o x y)
+    match ev D r a, ev D r b with
+    | .v x, .v y => .v (binSem D o x y)
     | _, _ => .v none
   | .un p a =>
-    match ev r a with
-    | .v x => .v (preSem p x)
+    match ev D r a with
+    | .v x => .v (preSem D p x)
     | _ => .v none
   | .isin a l =>
-    match ev r a, ev r l with
-    | .v x, .l ys => .v ((in3 x ys).map b2i)
+    match ev D r a, ev D r l with
+    | .v x, .l ys => .v ((in3 D x ys).map (b2i D))
     | _, _ => .v none
   | .call .mod a =>
-    match ev r a with
-    | .l [x, y] => .v (binSem .mod x y)
+    match ev D r a with
+    | .l [x, y] => .v (binSem D .mod x y)
     | _ => .v none
   | .nil => .l []
   | .cons h t =>
-    match ev r h, ev r t with
+    match ev D r h, ev D r t with
     | .v x, .l ys => .l (x :: ys)
     | _, _ => .l []
 
 /-- used as a WHERE clause, the parsed text selects the row -/
-def selects (t : T) (r : Row) : Bool :=
-  match ev r t with
-  | .v x => truth x == some true
+def selects (D : Dom) (t : T) (r : Row D) : Bool :=
+  match ev D r t with
+  | .v x => truth D x == some true
   | _ => false
 
 /-! ## The object graph built by sqlbuilder.py and its rendering -/
@@ -278,6 +357,7 @@ def selects (t : T) (r : Row) : Bool :=
 inductive Node where
   | field (c : Nat)                      -- `Table.q.col` (`SQLObjectField`)
   | int (i : Int)                        -- a Python int
+  | flt (neg : Bool) (i : Nat)           -- a Python float: sign and literal number of its magnitude
   | none                                 -- `None`
   | sqlop (o : BinOp) (l r : Node)       -- `SQLOp(op, l, r)`
   | sqlin (x l : Node)                   -- `SQLOp("IN", x, list)`
@@ -297,7 +377,8 @@ def renderOp (o : Tok) (s1 s2 : List Tok) : List Tok :=
     (`", ".join(items) + ")"` after the first item). -/
 def render (d : String) : Bool → Node → List Tok
   | _, .field c => [Tok.col c]
-  | _, .int i => if i < 0 then [Tok.pre .neg, Tok.num i.natAbs] else [Tok.num i.natAbs]
+  | _, .int i => if i < 0 then [Tok.pre .neg, Tok.num (.int i.natAbs)] else [Tok.num (.int i.natAbs)]
+  | _, .flt neg i => if neg then [Tok.pre .neg, Tok.num (.flt i)] else [Tok.num (.flt i)]
   | _, .none => [Tok.null]
   | _, .sqlop o l r => renderOp (Tok.op o) (render d false l) (render d false r)
   | _, .sqlin x l => Tok.lp :: (wrapS (render d false x) ++ Tok.kwIn :: render d false l) ++ [Tok.rp]
@@ -313,7 +394,8 @@ def render (d : String) : Bool → Node → List Tok
 /-- the abstract syntax the rendering of a node stands for -/
 def toT (d : String) : Node → T
   | .field c => .col c
-  | .int i => if i < 0 then .un .neg (.num i.natAbs) else .num i.natAbs
+  | .int i => if i < 0 then .un .neg (.num (.int i.natAbs)) else .num (.int i.natAbs)
+  | .flt neg i => if neg then .un .neg (.num (.flt i)) else .num (.flt i)
   | .none => .null
   | .sqlop o l r => .bin o (toT d l) (toT d r)
   | .sqlin x l => .isin (toT d x) (toT d l)
@@ -326,14 +408,6 @@ def toT (d : String) : Node → T
 
 /-! ## Source trees: what the Python expression means -/
 
-inductive ArOp where
-  | add | sub | mul | div | mod
-deriving DecidableEq, Repr
-
-inductive CmpOp where
-  | lt | le | gt | ge | eq | ne
-deriving DecidableEq, Repr
-
 /-- sorts of source trees: numeric expressions, boolean expressions, IN-lists -/
 inductive Srt where
   | num | bool | items
@@ -345,6 +419,7 @@ deriving DecidableEq, Repr
 inductive E : Srt → Type where
   | col (c : Nat) : E .num
   | const (i : Int) : E .num
+  | fconst (neg : Bool) (i : Nat) : E .num     -- a float constant: sign, literal number of its magnitude
   | ar (o : ArOp) (l r : E .num) : E .num      -- `l + r`, `l - r`, `l * r`, `l / r`, `l % r`
   | neg (x : E .num) : E .num                  -- `-x`
   | pos (x : E .num) : E .num                  -- `+x`
@@ -392,36 +467,20 @@ def orN (e : BoolE) (es : List BoolE) : BoolE := foldFn Extracted.orFold .orFn e
 
 /-! ### three-valued meaning of source trees -/
 
-def arSem (o : ArOp) (x y : Option Int) : Option Int :=
-  match x, y with
-  | some a, some b =>
-    (match o with
-    | .add => some (a + b)
-    | .sub => some (a - b)
-    | .mul => some (a * b)
-    | .div => if b = 0 then none else some (a.tdiv b)
-    | .mod => if b = 0 then none else some (a.tmod b))
-  | _, _ => none
-
-def cmpSem (o : CmpOp) (x y : Option Int) : Option Bool :=
-  match x, y with
-  | some a, some b =>
-    some (match o with
-    | .lt => decide (a < b)
-    | .le => decide (a ≤ b)
-    | .gt => decide (a > b)
-    | .ge => decide (a ≥ b)
-    | .eq => a == b
-    | .ne => a != b)
-  | _, _ => none
+/-- the list item is a non-NULL value equal to `a` -/
+def eqItem (D : Dom) (a : D.V) : Option D.V → Bool
+  | some b => D.cmp .eq a b
+  | none => false
 
 /-- textbook `x IN (ys)`: false on the empty list (SQLite), unknown if `x` is NULL, true if some
     `y = x`, unknown if no match but a NULL among the `ys`, false otherwise -/
-def inSpec (x : Option Int) (ys : List (Option Int)) : Option Bool :=
+def inSpec (D : Dom) (x : Option D.V) (ys : List (Option D.V)) : Option Bool :=
   if ys.isEmpty then some false else
   match x with
   | none => none
-  | some a => if ys.contains (some a) then some true else if ys.contains none then none else some false
+  | some a =>
+    if ys.any (eqItem D a) then some true
+    else if ys.any Option.isNone then none else some false
 
 /-- n-ary three-valued conjunction, stated without a fold -/
 def all3 (xs : List (Option Bool)) : Option Bool :=
@@ -432,49 +491,52 @@ def any3 (xs : List (Option Bool)) : Option Bool :=
   if some true ∈ xs then some true else if none ∈ xs then none else some false
 
 /-- values of the three sorts -/
-@[reducible] def Val : Srt → Type
-  | .num => Option Int
+@[reducible] def Val (D : Dom) : Srt → Type
+  | .num => Option D.V
   | .bool => Option Bool
-  | .items => List (Option Int)
+  | .items => List (Option D.V)
 
 /-- the value of a source tree on a row; a boolean used as a number is 1 / 0 / NULL -/
-def eval (r : Row) : {s : Srt} → E s → Val s
+def eval (D : Dom) (r : Row D) : {s : Srt} → E s → Val D s
   | _, .col c => r c
-  | _, .const i => some i
-  | _, .ar o l x => arSem o (eval r l) (eval r x)
-  | _, .neg x => (eval r x : Option Int).map (fun a => -a)
-  | _, .pos x => eval r x
-  | _, .b2i b => (eval r b : Option Bool).map b2i
-  | _, .cmp o l x => cmpSem o (eval r l) (eval r x)
-  | _, .andOp l x => and3 (eval r l) (eval r x)
-  | _, .andFn l x => and3 (eval r l) (eval r x)
-  | _, .orOp l x => or3 (eval r l) (eval r x)
-  | _, .orFn l x => or3 (eval r l) (eval r x)
-  | _, .notOp x => not3 (eval r x)
-  | _, .notFn x => not3 (eval r x)
-  | _, .isin x l => inSpec (eval r x) (eval r l)
-  | _, .notin x l => not3 (inSpec (eval r x) (eval r l))
-  | _, .isnull x => some (eval r x : Option Int).isNone
-  | _, .isnotnull x => some (eval r x : Option Int).isSome
-  | _, .eqNone x => some (eval r x : Option Int).isNone
-  | _, .neNone x => some (eval r x : Option Int).isSome
-  | _, .inil => ([] : List (Option Int))
-  | _, .inull t => (none : Option Int) :: (eval r t : List (Option Int))
-  | _, .icons h t => (eval r h : Option Int) :: (eval r t : List (Option Int))
+  | _, .const i => some (D.ofInt i)
+  | _, .fconst neg i => some (if neg then D.neg (D.flt i) else D.flt i)
+  | _, .ar o l x => lift2 (D.ar o) (eval D r l) (eval D r x)
+  | _, .neg x => (eval D r x : Option D.V).map D.neg
+  | _, .pos x => eval D r x
+  | _, .b2i b => (eval D r b : Option Bool).map (b2i D)
+  | _, .cmp o l x => lift2 (fun a b => some (D.cmp o a b)) (eval D r l) (eval D r x)
+  | _, .andOp l x => and3 (eval D r l) (eval D r x)
+  | _, .andFn l x => and3 (eval D r l) (eval D r x)
+  | _, .orOp l x => or3 (eval D r l) (eval D r x)
+  | _, .orFn l x => or3 (eval D r l) (eval D r x)
+  | _, .notOp x => not3 (eval D r x)
+  | _, .notFn x => not3 (eval D r x)
+  | _, .isin x l => inSpec D (eval D r x) (eval D r l)
+  | _, .notin x l => not3 (inSpec D (eval D r x) (eval D r l))
+  | _, .isnull x => some (eval D r x : Option D.V).isNone
+  | _, .isnotnull x => some (eval D r x : Option D.V).isSome
+  | _, .eqNone x => some (eval D r x : Option D.V).isNone
+  | _, .neNone x => some (eval D r x : Option D.V).isSome
+  | _, .inil => ([] : List (Option D.V))
+  | _, .inull t => (none : Option D.V) :: (eval D r t : List (Option D.V))
+  | _, .icons h t => (eval D r h : Option D.V) :: (eval D r t : List (Option D.V))
 
-abbrev evalN (r : Row) (e : NumE) : Option Int := eval r e
-abbrev evalB (r : Row) (e : BoolE) : Option Bool := eval r e
+abbrev evalN (D : Dom) (r : Row D) (e : NumE) : Option D.V := eval D r e
+abbrev evalB (D : Dom) (r : Row D) (e : BoolE) : Option Bool := eval D r e
 
 /-- how a source value appears to the untyped SQLite-style evaluator -/
-def embed : (s : Srt) → Val s → Sem
+def embed (D : Dom) : (s : Srt) → Val D s → Sem D.V
   | .num, x => .v x
-  | .bool, x => .v (x.map b2i)
+  | .bool, x => .v (x.map (b2i D))
   | .items, l => .l l
 
 /-! ### the constructors: Python operators and builder functions -/
 
+/-- the operand is a plain Python number (int or float), not an `SQLExpression` -/
 def isConst : NumE → Bool
   | .const _ => true
+  | .fconst _ _ => true
   | _ => false
 
 def isCol : NumE → Bool
@@ -492,9 +554,6 @@ def arOv : ArOp → OvBin
 def arRov : ArOp → OvBin
   | .add => Extracted.radd | .sub => Extracted.rsub | .mul => Extracted.rmul | .div => Extracted.rdiv
   | .mod => ⟨Extracted.moduloOp, true⟩
-
-def CmpOp.flip : CmpOp → CmpOp
-  | .lt => .gt | .le => .ge | .gt => .lt | .ge => .le | .eq => .eq | .ne => .ne
 
 /-- the comparison method of an expression (`field = true`: of a `Table.q.col` field) -/
 def cmpOv (field : Bool) : CmpOp → OvBin
@@ -539,6 +598,7 @@ def noneRule (rule : NoneRule) (ov : OvBin) (a : Node) : Node :=
 def build : {s : Srt} → E s → Node
   | _, .col c => .field c
   | _, .const i => .int i
+  | _, .fconst neg i => .flt neg i
   | _, .ar o l r =>
     if o = .mod then .modulo (build l) (build r)
     else if isConst l && !isConst r then applyOv (arRov o) (build r) (build l)
@@ -576,9 +636,9 @@ abbrev buildB (e : BoolE) : Node := build e
 
 /-- the filter `Cls.select(e)` sends, read back by the reference parser with binding powers `P`,
     selects row `r` -/
-def selected (P : Prec) (d : String) (e : BoolE) (r : Row) : Bool :=
+def selected (D : Dom) (P : Prec) (d : String) (e : BoolE) (r : Row D) : Bool :=
   match parse P (render d false (buildB e)) with
-  | some t => selects t r
+  | some t => selects D t r
   | none => false
 
 /-! ### spelling (for the token-level correspondence and the `= NULL` statement) -/
@@ -586,7 +646,8 @@ def selected (P : Prec) (d : String) (e : BoolE) (r : Row) : Bool :=
 def Tok.spell : Tok → String
   | .lp => "(" | .rp => ")" | .comma => "," | .null => "NULL" | .kwIn => "IN"
   | .col c => "c" ++ toString c
-  | .num n => toString n
+  | .num (.int n) => toString n
+  | .num (.flt i) => "f" ++ toString i
   | .op o => o.spell
   | .pre p => p.spell
   | .fn f => f.spell
@@ -608,7 +669,7 @@ def hasEqNull : List Tok → Bool
 inductive Sym where
   | lp | rp | comma | null | kwIn
   | col (c : Nat)
-  | num (n : Nat)
+  | num (n : Lit)
   | fn (f : Fn)
   | word (s : String)
 deriving DecidableEq, Repr
